@@ -36,6 +36,25 @@ def impls():
     return _impls
 
 
+def impl_records():
+    """The implementation circuits in the form of spec/CircuitImpls.tla (see tools/gen_impls.py)."""
+    out = []
+    for c in impls():
+        st = project(c)
+        out.append(dict(nodes=[dict(name=n['name'], kind=n['kind'], ins=n['ins'], outs=n['outs']) for n in st['nodes']],
+                        lines=[[l['drv'], l['dpin'], l['rdr'], l['rpin']] for l in st['lines']], io=st['io']))
+    return out
+
+
+def impls_match_spec():
+    import json, os
+    from .core import SPEC
+    try:
+        return json.load(open(os.path.join(SPEC, 'CircuitImpls.json'))) == impl_records()
+    except Exception:
+        return False
+
+
 def proj(c):
     st = project(c, full=True)
     for nd in st['nodes']:
@@ -230,13 +249,20 @@ def main(tier=None, replay=None):
     if r.rc != 0:
         raise MachineryError('design run: the editing MODEL violates %s - specification bug' % (r.invariant_violations + r.action_violations))
     ck.need_cover(['M:%s.%s' % (cfg, a) for a in ('NewNode', 'Eliminate', 'Copy', 'Pickle')])
+    # the same with Circuit.substitute (transcribed in CircuitEdit.tla; implementation circuits of CircuitImpls.tla)
+    cfg2 = ck.pick('MC_CircuitEdit_s', 'MC_CircuitEdit_sb')
+    r = ck.tlc('CircuitEdit', cfg2, label='M:' + cfg2, cont=False, timeout=3000)
+    ck.require_clean(r, allow_violation=False)
+    if r.rc != 0:
+        raise MachineryError('design run with substitute: the editing MODEL violates %s - specification bug' % (r.invariant_violations + r.action_violations))
     # (R) behaviours of the model into the real code
-    g = ck.tlc('CircuitEdit', 'Gen_CircuitEdit', workers=1, label='gen:CircuitEdit', cont=False, timeout=1200)
-    ck.require_clean(g, allow_violation=False)
     hs = {}
-    for v in extract_values(g.out, 'HIST'):
-        h = v[1]
-        hs[str(h)] = h
+    for gcfg in ('Gen_CircuitEdit', 'Gen_CircuitEdit_s'):
+        g = ck.tlc('CircuitEdit', gcfg, workers=1, label='gen:' + gcfg, cont=False, timeout=1200)
+        ck.require_clean(g, allow_violation=False)
+        for v in extract_values(g.out, 'HIST'):
+            h = v[1]
+            hs[str(h)] = h
     hists = [h for h in hs.values() if len(h) > 0]
     if len(hists) < 100:
         raise MachineryError('too few histories generated by TLC: %d' % len(hists))
@@ -258,8 +284,13 @@ def main(tier=None, replay=None):
         ck.nontrivial.add(gen.digest([e['act'] for e in tr]))
     ck.sample(dict(history=[e['act'] for e in traces[-1][:12]], state_after_first_edit=traces[-1][0]['st']))
     judge(ck, traces, keys, None)
-    # conformance with the concrete model (DRIFT only): histories without substitute
-    conf = [t for t in traces if t and not any(e['act'][0] == 'Subst' or e['raised'] for e in t)]
+    # conformance with the concrete model (DRIFT only), substitute included as long as the implementation circuits the
+    # real bench parser builds are the ones CircuitImpls.tla was generated from
+    with_subst = impls_match_spec()
+    if not with_subst:
+        ck.drift('the implementation circuits built by the bench parser differ from spec/CircuitImpls.tla: histories with substitute are not followed by the model')
+    conf = [t for t in traces if t and not any((e['act'][0] == 'Subst' and not with_subst) or e['raised'] for e in t)]
+    ck.count('model-followed-substitutes', sum(1 for t in conf for e in t if e['act'][0] == 'Subst'))
     conf = conf[:nmodel] + [t for t in conf[nmodel:] if len(t) <= 80][:ck.pick(40, 300)]
     r2 = ck.tlc_batch('CircuitEditTrace', 'CircuitEditTrace', traces=conf, label='T:CircuitEditTrace', per_shard=80, timeout=1700)
     if r2.crashed():
@@ -273,7 +304,7 @@ def main(tier=None, replay=None):
     ck.assumptions += ['well-formed use: explicit pins only on free positions (on a fork output only the next position; a fork has a single driver on pin 0), nodes removed after '
                        'their lines, ports not removed, eliminate only when 1:1 forks have a driver and forks form no loop, substitute only '
                        'where the port counts match and generated names are free', 'TLC, JSON reader, harness projection (public attributes)']
-    ck.extra['model_constants'] = 'MC_CircuitEdit: 2 names, 1 cell kind + fork, <=3 nodes, <=3 lines, pins <=2, depth <=5 (thorough 6); Gen depth <=4'
+    ck.extra['model_constants'] = 'MC_CircuitEdit: 2 names, 1 cell kind + fork, <=3 nodes, <=3 lines, pins <=2, depth <=5 (thorough 6); MC_CircuitEdit_s: the same with pins <=1 and substitute of implementations 1,3,4,5,6; Gen / Gen_s depth <=4'
     return ck.finish('edit histories: every distinct (canonical state, last edit) of the bounded TLC model + seeded random histories of 40..400 '
                      'public edits over <=20 names incl. eliminate, substitute (7 implementation shapes), copy and pickle (continuing on the clone); '
                      'distinct by the edit sequence')
